@@ -229,6 +229,9 @@ var revLookAlikes = []string{"in-addr.arpa", "ip6.arpa", "IN-ADDR.ARPA", "İn-ad
 	"xn---.1.in-addr.arpa", "xn---.ip6.arpa", "пример.1.in-addr.arpa", "1.пример.in-addr.arpa", "a\xff.ip6.arpa", "\xff.ip6.arpa",
 	// IPv6 literals with an embedded dotted quad in front of the IPv4 root; a label whose last characters look like an octet
 	"::4.3.2.1.in-addr.arpa", "1:2:3:4:5:6:7.8.9.10.in-addr.arpa", "::.3.2.1.in-addr.arpa", "::1.in-addr.arpa", "a::4.3.2.1.in-addr.arpa", "64:ff9b::4.3.2.1.in-addr.arpa",
+	// DEL (0x7f), the last ASCII value, where a digit or nibble is expected
+	"\x7f.ip6.arpa", "a.\x7f.ip6.arpa", "\x7f.a.ip6.arpa", "\x7f.0.0.127.in-addr.arpa", "1.\x7f.in-addr.arpa", "0.0.0.0.0.0.0.0.0.0.0.0.0.0.0.0.0.0.0.0.0.0.0.0.0.0.0.0.0.0.0.\x7f.ip6.arpa",
+	"\x7f.0.0.0.0.0.0.0.0.0.0.0.0.0.0.0.0.0.0.0.0.0.0.0.0.0.0.0.0.0.0.0.ip6.arpa", "\x7f::1", "::\x7f", "1:\x7f::", "[::\x7f]:53", "1.2.3.\x7f",
 	"1_0.0.0.127.in-addr.arpa", "0x1.0.0.127.in-addr.arpa", "0b1.0.0.127.in-addr.arpa", "0o7.0.0.127.in-addr.arpa", "1_1.2_2.3.4.in-addr.arpa", "1.0.0.1_27.in-addr.arpa", "+1.0.0.127.in-addr.arpa",
 	"x192.168.in-addr.arpa", "xx10.in-addr.arpa", "a1.2.in-addr.arpa", "1234.5.in-addr.arpa", "x192.168.1.1.in-addr.arpa", "0192.168.in-addr.arpa", "x1.in-addr.arpa", "ab255.255.in-addr.arpa", "-192.168.in-addr.arpa", "_192.168.in-addr.arpa"}
 
